@@ -1,10 +1,19 @@
 PROP = {
     "id": "C42",
     "theorem_modules": ["Verif.Properties.C42"],
-    "min_theorems": 9,
+    "min_theorems": 19,
     "required_theorems": [
         "Verif.Properties.C42.tags_pinned",
         "Verif.Properties.C42.cbor_roundtrip",
+        "Verif.Properties.C42.simple_types_bijective",
+        "Verif.Properties.C42.roundtrip_partial",
+        "Verif.Properties.C42.roundtrip_dictionary_is_permutation",
+        "Verif.Properties.C42.decode_bytes",
+        "Verif.Properties.C42.strict_accepts_own_partial",
+        "Verif.Properties.C42.strict_rejects_unsorted_dictionary_partial",
+        "Verif.Properties.C42.strict_rejects_unsorted_members_partial",
+        "Verif.Properties.C42.duplicate_keys_accepted_witness",
+        "Verif.Properties.C42.decode_total",
         "Verif.Properties.C42.sort_unique",
         "Verif.Properties.C42.canonical_entitlements",
         "Verif.Properties.C42.canonical_dictionary",
@@ -20,31 +29,42 @@ PROP = {
          "quick": {"n": 1200}, "thorough": {"n": 20000, "seeds": 4}},
     ],
     "exhaustive": False,
-    "technique": "Lean 4 proof over a code-shaped model of the CCF encoder (type-definition collection and sorting, inline "
-                 "types, type values, values, the sorters) on CBOR data items + fact table of tag numbers / simple type ids "
-                 "from the running code + correspondence stream (bytes, decoders against the spec, permutations, strict "
-                 "decoder, CBOR mutations)",
-    "level_text": "Lean theorems: the sorters give one result on every permutation of pairwise different keys (insertion-sort "
-                  "model of sort.Sort with the comparators of sort.go, which are proved to be total orders); the "
-                  "deterministic encoding of entitlement sets is order independent (full), of dictionaries, intersections "
-                  "and fields after member encoding (partial); pinned tag / simple-type tables (decide). Tie: stream `ccf` on "
-                  "generated values of every value kind incl. attachments, with complete static types: Go bytes = model "
-                  "bytes in default and deterministic mode; ccf.Decode(ccf.Encode v) = v up to what CCF does not carry "
-                  "(initializers, raw/base types, interface members of value types; dictionaries as sets) and re-encodes "
-                  "identically; permuted dictionary entries / intersection members / entitlement sets encode identically in "
-                  "deterministic mode; the strict decoder accepts every deterministic encoding (and returns a value with the "
-                  "same deterministic encoding) and rejects every default-mode encoding that differs from it; CBOR-head and "
-                  "byte mutations never make ccf.Decode panic or hang.",
-    "level_note": "Partial: there is no Lean port of the CCF decoder, so roundtrip / strict_accepts_own / "
-                  "strict_rejects_unsorted / decode_total / cbor_roundtrip are correspondence-checked on the Go code against "
-                  "the encoder model and the spec, not theorems; the canonical-form theorem is proved for the sorting steps, "
-                  "not through the recursive encoder. Known findings: function values cannot be decoded; nil ambiguity of "
-                  "nested optionals / optional Void. Trusted: Lean kernel; fxamacker/cbor; the hand-written port (validated "
-                  "byte-for-byte by the stream); harness and driver.",
+    "technique": "Lean 4 proof over code-shaped models of the CCF encoder (type-definition collection and sorting, inline "
+                 "types, type values, values, the sorters) and of the CCF decoder (decode.go, decode_type.go, "
+                 "decode_typedef.go: type definition table, inline types, type values, values, sortedness enforcement) on "
+                 "CBOR data items, with the item <-> bytes layer + fact table of tag numbers / simple type ids from the "
+                 "running code + correspondence stream (bytes; ccf.Decode against the port and against the spec; "
+                 "permutations; strict decoder; CBOR mutations; hand-built unsorted / duplicate dictionary encodings)",
+    "level_text": "Lean theorems: cbor_roundtrip (every well-formed item of the CBOR subset is read back from its shortest-form "
+                  "bytes); roundtrip_partial (for every encoder mode and decoder mode, the message of a value built from "
+                  "scalars of every integer kind, Fix64/UFix64, strings, characters, addresses, paths, capabilities with "
+                  "optionals, arrays, dictionaries and inclusive ranges decodes to the value with dictionary entries in key "
+                  "order, of equal type; the decoded entries are a permutation); strict_accepts_own_partial (same subset); "
+                  "strict_rejects_unsorted_*_partial (every decoder mode rejects a dictionary value with a key out of order; "
+                  "the enforced checks reject out-of-order intersection members / field names / entitlements); decode_total; "
+                  "the sorters give one result on every permutation of pairwise different keys; canonical form of entitlement "
+                  "sets (full), dictionaries, intersections; pinned tag table and bijective simple-type table (decide). Tie: "
+                  "stream `ccf` on generated values of every value kind incl. attachments: Go bytes = encoder model bytes in "
+                  "default and deterministic mode; ccf.Decode / strict Decode = the decoder port on every encoding, on every "
+                  "CBOR mutation inside the CBOR subset and on hand-built dictionaries; ccf.Decode(ccf.Encode v) = v up to what "
+                  "CCF does not carry and re-encodes identically; permutations encode identically in deterministic mode; the "
+                  "strict decoder accepts every deterministic encoding and rejects every default-mode encoding that differs "
+                  "from it; unsorted hand-built dictionaries are rejected by both decoder modes; no panic or hang.",
+    "level_note": "Partial: roundtrip / strict_accepts_own are proved on the subset without composite values, type values, "
+                  "Fix128/UFix128, abstract static types (run-time type tags), multi-member intersections / entitlement sets "
+                  "in value types, and for decodeMsgF with any fuel above the value's nesting (msgFuel of decodeMsg is not "
+                  "proved sufficient); strict_rejects_unsorted is proved per construct, not lifted through arbitrary enclosing "
+                  "messages; the canonical-form theorem is proved for the sorting steps, not through the recursive encoder. "
+                  "Everything outside the proved subset is correspondence-checked (Go against the decoder port and the spec). "
+                  "Duplicate dictionary keys are accepted by the decoder (bytes.Compare <= 0): not counted as unsorted (CCF "
+                  "leaves duplicate detection to the application); pinned by duplicate_keys_accepted_witness. Known findings: "
+                  "function values cannot be decoded; nil ambiguity of nested optionals / optional Void. Trusted: Lean kernel; "
+                  "fxamacker/cbor (incl. acceptance of non-shortest heads, outside the model); the hand-written ports "
+                  "(validated by the stream); harness and driver.",
     "assumptions": ["composite / interface types are identified by their type ID (one declaration per ID inside a value)",
                     "dictionary keys, field names, intersection members and entitlements are pairwise different (CCF: "
                     "applications must not provide invalid items to encoders)"],
-    "trusted_base": ["hand-written ports Verif.Model.Codec.Ccf / Cbor / CValue / TypeID validated by stream ccf",
+    "trusted_base": ["hand-written ports Verif.Model.Codec.Ccf / CcfDecode / Cbor / CValue / TypeID validated by stream ccf",
                      "vtool gen-ccftags (facts from the running codec)",
                      "Go harness cmd/vharness/stream_ccf.go, internal/cval", "driver Drv/Ccf.lean"],
 }
